@@ -21,12 +21,29 @@ impl ZoneCombiner {
             return CandidateZone::uniq(self.zones[0].clone());
         }
 
-        let maps: Vec<HashMap<(u32, String), CandidateZone>> = self
+        // Zone ids restart at 0 for every event type (uid) inside a segment, so zones of
+        // different uids must not share a key. Only wildcard scopes yield more than one uid;
+        // for a single uid keep it out of the key so that untagged zones (index pruners)
+        // still match tagged ones (all-zones fallbacks).
+        let distinct_uids: std::collections::HashSet<&str> = self
+            .zones
+            .iter()
+            .flat_map(|set| set.iter().filter_map(|z| z.uid()))
+            .collect();
+        let multi_uid = distinct_uids.len() > 1;
+        let maps: Vec<HashMap<(u32, String, Option<String>), CandidateZone>> = self
             .zones
             .iter()
             .map(|set| {
                 set.iter()
-                    .map(|z| ((z.zone_id, z.segment_id.clone()), z.clone()))
+                    .map(|z| {
+                        let uid = if multi_uid {
+                            z.uid().map(str::to_string)
+                        } else {
+                            None
+                        };
+                        ((z.zone_id, z.segment_id.clone(), uid), z.clone())
+                    })
                     .collect()
             })
             .collect();
